@@ -35,6 +35,24 @@ theorem single_version (s : ServerProtocol.Store) (cs : List (Nat × ServerProto
     r = .notFound ∨ r = .ioError ∨ ∃ v ∈ st.store q.name, r = ServerProtocol.answer v q :=
   ServerProtocol.single_version_reachable s cs hu hz st hr cid q r h
 
+/-- **a tile answer is the answer of the version that is current at the moment of its tile read**
+    (the conditional read is atomic and lies inside the request): whenever the bucket accepts the
+    presented tag, the bytes delivered are exactly what the then-current version answers to the whole
+    request — header, directories and tile bytes all belong to that one version, current at that moment -/
+theorem data_current_at_read (st : ServerProtocol.St) (hi : ServerProtocol.SInv st)
+    (pre post : List (Nat × ServerProtocol.Client)) (cid : Nat) (q : ServerProtocol.Q) (a : Nat)
+    (h : ServerProtocol.Hdr) (t : ServerProtocol.Tag) (e : ServerProtocol.Ent)
+    (hc : st.clients = pre ++ (cid, ⟨q, .tileRead a h t e⟩) :: post)
+    (v : ServerProtocol.Version) (hcur : ServerProtocol.current st.store q.name = some v) (htag : v.tag = t) :
+    ServerProtocol.Resp.tile (v.raw (h.tileOff + e.off) e.len) = ServerProtocol.answer v q := by
+  have hcg := hi.clients (cid, ⟨q, .tileRead a h t e⟩) (by rw [hc]; simp)
+  simp only [ServerProtocol.ClientGood] at hcg
+  obtain ⟨_, v', hv', htag', _, _, _, hans⟩ := hcg
+  have hvm := ServerProtocol.current_mem hcur
+  have : v = v' := ServerProtocol.uniq_tag (hi.uniq q.name) hvm hv' (by rw [htag, htag'])
+  subst this
+  exact hans.symm
+
 /-- the purge of a retry: after a request carrying the stale tag `E` for archive `n`, nothing cached
     for `n` is keyed by `E` or holds a value tagged `E` (so the retry refetches header and directories) -/
 theorem purge_removes_stale (s : Cache.St) (name tag : String) (hi : Cache.Inv s) :
